@@ -29,6 +29,9 @@ const c14DirectDoc = `{"openapi":"3.0.3","info":{"title":"t","version":"1"},"ser
   "get":{"parameters":[{"name":"version","in":"header","schema":{"type":"integer"}}],"responses":{"200":{"description":"ok","content":{"application/json":{"schema":{"type":"object"}}}}}}},
  "/notes":{"post":{"security":[{"key":[]},{}],"requestBody":{"content":{"application/json":{"schema":{"type":"object","required":["x"],"properties":{"x":{"type":"integer"}}}}}},
   "responses":{"200":{"description":"ok"}}}},
+ "/rated":{"get":{"parameters":[{"name":"X-Filter","in":"header","schema":{"type":"object","required":["a"],"properties":{"a":{"type":"integer"}}}},
+   {"name":"f","in":"query","style":"deepObject","explode":true,"schema":{"type":"object","minProperties":1,"properties":{"a":{"type":"integer"}}}},{"name":"other","in":"query","schema":{"type":"string"}}],
+  "responses":{"200":{"description":"ok","headers":{"X-Rate":{"required":true,"schema":{"type":"integer","maximum":9}}},"content":{"application/json":{"schema":{"type":"object"}}}}}}},
  "/items":{"get":{"parameters":[{"name":"limit","in":"query","required":true,"schema":{"type":"integer","maximum":10}}],
  "responses":{
   "201":{"description":"exact","content":{"application/json":{"schema":{"type":"object","required":["id"],"properties":{"id":{"type":"integer"}}}}}},
@@ -54,6 +57,8 @@ func c14DirectCases(meta *Meta) {
 		WantCode   int    // what the client sees
 		Method     string // "" = GET
 		ReqBody    string
+		RespHdr    string // value the handler gives the response header X-Rate ("" = not set)
+		ExclBody   bool   // Options.ExcludeResponseBody
 	}
 	get := func(url string, status int, body string, strict, wantCalled bool, wantCode int) tc {
 		return tc{URL: url, Status: status, Body: body, Strict: strict, WantCalled: wantCalled, WantCode: wantCode}
@@ -77,6 +82,13 @@ func c14DirectCases(meta *Meta) {
 		// optional authentication: the first alternative's callback reads the body and refuses, the empty requirement lets the request in - with its body
 		get("/v1/things?version=3", 200, `{}`, true, true, 200), get("/v1/things?version=0", 200, `{}`, true, false, 400), get("/v1/things?version=abc", 200, `{}`, true, false, 400), get("/v1/things", 200, `{}`, true, false, 400),
 		post("/v1/notes", `{"x":1}`, 200, ``, true, 200), post("/v1/notes", `{"y":1}`, 200, ``, false, 400), post("/v1/notes", `{"x":`, 200, ``, false, 400))
+	rated := func(url, hdr string, excl, wantCalled bool, wantCode int) tc {
+		return tc{URL: url, Status: 200, Body: `{}`, Strict: true, WantCalled: wantCalled, WantCode: wantCode, RespHdr: hdr, ExclBody: excl}
+	}
+	cases = append(cases,
+		// an optional object parameter that is not sent is not there; a required response header is checked whatever the body options say
+		rated("/v1/rated", "5", false, true, 200), rated("/v1/rated?other=x", "5", false, true, 200), rated("/v1/rated", "", false, true, 500), rated("/v1/rated", "abc", false, true, 500),
+		rated("/v1/rated", "50", false, true, 500), rated("/v1/rated", "5", true, true, 200), rated("/v1/rated", "", true, true, 500), rated("/v1/rated", "abc", true, true, 500), rated("/v1/rated?other=x", "50", true, true, 500))
 	for _, rname := range []string{"legacy", "gorillamux"} {
 		var router routers.Router
 		if rname == "legacy" {
@@ -93,10 +105,14 @@ func c14DirectCases(meta *Meta) {
 			h := http.HandlerFunc(func(w http.ResponseWriter, _ *http.Request) {
 				called = true
 				w.Header().Set("Content-Type", "application/json")
+				if c.RespHdr != "" {
+					w.Header().Set("X-Rate", c.RespHdr)
+				}
 				w.WriteHeader(c.Status)
 				w.Write([]byte(c.Body))
 			})
 			v := openapi3filter.NewValidator(router, openapi3filter.Strict(c.Strict), openapi3filter.ValidationOptions(openapi3filter.Options{
+				ExcludeResponseBody: c.ExclBody,
 				AuthenticationFunc: func(_ context.Context, ai *openapi3filter.AuthenticationInput) error {
 					// an authenticator that looks at the body (a signature check) and refuses
 					if b := ai.RequestValidationInput.Request.Body; b != nil {
@@ -110,7 +126,7 @@ func c14DirectCases(meta *Meta) {
 				req = httptest.NewRequest("POST", c.URL, strings.NewReader(c.ReqBody))
 				req.Header.Set("Content-Type", "application/json")
 			}
-			desc := map[string]any{"router": rname, "request": req.Method + " " + c.URL, "request_body": c.ReqBody, "handler_status": c.Status, "handler_body": c.Body, "strict": c.Strict}
+			desc := map[string]any{"router": rname, "request": req.Method + " " + c.URL, "request_body": c.ReqBody, "handler_status": c.Status, "handler_body": c.Body, "strict": c.Strict, "handler_header_x_rate": c.RespHdr, "exclude_response_body": c.ExclBody}
 			meta.Histogram["directed end-to-end cases"]++
 			if p := catchPanic(func() { v.Middleware(h).ServeHTTP(rec, req) }); p != nil {
 				viol("directed:panic", desc, fmt.Sprint(p))
